@@ -16,6 +16,7 @@ structure G (cfg : Cfg) (s : St) : Prop where
   fo : Gfo s
   pay : Gpay s
   gr : Ggr cfg s
+  halt : Ghalt s
   inc : EnvHyp.sane → Ginc cfg s
 
 /-- `x` is a good successor of `s`: the invariant holds and the executing generator is untouched. -/
@@ -56,6 +57,10 @@ macro "gfo_fields" : tactic => `(tactic|
 macro "gpay_fields" : tactic => `(tactic|
   (constructor <;> ((try unfold emit at *); grind [C02.payStep, runR_cons])))
 
+/-- close `Ghalt X` likewise -/
+macro "ghalt_fields" : tactic => `(tactic|
+  (constructor <;> ((try unfold emit at *); grind [C03.haltStep, runR_cons])))
+
 /-- close `Ggr cfg X` likewise -/
 macro "ggr_fields" : tactic => `(tactic|
   (constructor <;> ((try unfold emit at *); grind [C14.grStep, runR_cons])))
@@ -73,34 +78,36 @@ macro_rules
 syntax "leaf" ident : tactic
 macro_rules
   | `(tactic| leaf $hx) => `(tactic|
-      (obtain ⟨⟨⟨h1, h2, h2b, h3, h4, h5, h6, h7, h8, h9, h10, h11, h12, h13⟩,
-                ⟨k1, k2, k3, k4, k5, k6⟩, ⟨r1, r2⟩, ⟨a1, a2, a3⟩, ⟨f1, f2, f3⟩, ⟨p1, p2, p3, p4⟩, ⟨w1, w2, w3⟩, hinc⟩, hfr⟩ := $hx
-       refine ⟨⟨?_, ?_, ?_, ?_, ?_, ?_, ?_, ?_⟩, ?_⟩
-       · (clear hinc p1 p2 p3 p4 w1 w2 w3; g1_fields)
-       · (clear hinc p1 p2 p3 p4 w1 w2 w3; gsf_fields)
-       · (clear hinc p1 p2 p3 p4 w1 w2 w3; gres_fields)
-       · (clear hinc p1 p2 p3 p4 w1 w2 w3; gack_fields)
-       · (clear hinc p1 p2 p3 p4 w1 w2 w3; gfo_fields)
-       · (clear hinc h1 h2 h2b h3 h4 h5 h6 h7 h8 h9 h10 h11 h12 h13 k1 k2 k3 k4 a1 a2 a3 r1 r2 f1 f2 f3 w1 w2 w3; gpay_fields)
-       · (clear hinc h1 h2 h2b h3 h4 h5 h6 h7 h8 h9 h10 h11 h12 h13 k1 k2 k3 k4 a1 a2 a3 r1 r2 f1 f2 f3 p1 p2 p3 p4; ggr_fields)
-       · (clear p1 p2 p3 p4 w1 w2 w3; ginc_fields hinc)
+      (obtain ⟨⟨⟨h1, h2, h2c, h2b, h3, h4, h5, h6, h7, h8, h9, h10, h11, h12, h13⟩,
+                ⟨k1, k2, k3, k4, k5, k6⟩, ⟨r1, r2⟩, ⟨a1, a2, a3⟩, ⟨f1, f2, f3⟩, ⟨p1, p2, p3, p4⟩, ⟨w1, w2, w3⟩, ⟨u1, u2⟩, hinc⟩, hfr⟩ := $hx
+       refine ⟨⟨?_, ?_, ?_, ?_, ?_, ?_, ?_, ?_, ?_⟩, ?_⟩
+       · (clear hinc p1 p2 p3 p4 w1 w2 w3 u1 u2; g1_fields)
+       · (clear hinc p1 p2 p3 p4 w1 w2 w3 u1 u2; gsf_fields)
+       · (clear hinc p1 p2 p3 p4 w1 w2 w3 u1 u2; gres_fields)
+       · (clear hinc p1 p2 p3 p4 w1 w2 w3 u1 u2; gack_fields)
+       · (clear hinc p1 p2 p3 p4 w1 w2 w3 u1 u2; gfo_fields)
+       · (clear hinc h1 h2 h2c h2b h3 h4 h5 h6 h7 h8 h9 h10 h11 h12 h13 k1 k2 k3 k4 a1 a2 a3 r1 r2 f1 f2 f3 w1 w2 w3 u1 u2; gpay_fields)
+       · (clear hinc h1 h2 h2c h2b h3 h4 h5 h6 h7 h8 h9 h10 h11 h12 h13 k1 k2 k3 k4 a1 a2 a3 r1 r2 f1 f2 f3 p1 p2 p3 p4 u1 u2; ggr_fields)
+       · (clear hinc h3 h4 h5 h6 h7 h8 h9 h10 h11 h12 h13 k1 k2 k3 k4 a1 a2 a3 r1 r2 f1 f2 f3 p1 p2 p3 p4 w1 w2 w3; ghalt_fields)
+       · (clear p1 p2 p3 p4 w1 w2 w3 u1 u2; ginc_fields hinc)
        · first | exact hfr | (simp only []; exact hfr) | grind))
 
 /-- `G cfg X` for an explicit update `X` of `x` (which may replace the frame), from `hx : G cfg x`. -/
 syntax "gleaf" ident : tactic
 macro_rules
   | `(tactic| gleaf $hx) => `(tactic|
-      (obtain ⟨⟨h1, h2, h2b, h3, h4, h5, h6, h7, h8, h9, h10, h11, h12, h13⟩,
-               ⟨k1, k2, k3, k4, k5, k6⟩, ⟨r1, r2⟩, ⟨a1, a2, a3⟩, ⟨f1, f2, f3⟩, ⟨p1, p2, p3, p4⟩, ⟨w1, w2, w3⟩, hinc⟩ := $hx
-       refine ⟨?_, ?_, ?_, ?_, ?_, ?_, ?_, ?_⟩
-       · (clear hinc p1 p2 p3 p4 w1 w2 w3; g1_fields)
-       · (clear hinc p1 p2 p3 p4 w1 w2 w3; gsf_fields)
-       · (clear hinc p1 p2 p3 p4 w1 w2 w3; gres_fields)
-       · (clear hinc p1 p2 p3 p4 w1 w2 w3; gack_fields)
-       · (clear hinc p1 p2 p3 p4 w1 w2 w3; gfo_fields)
-       · (clear hinc h1 h2 h2b h3 h4 h5 h6 h7 h8 h9 h10 h11 h12 h13 k1 k2 k3 k4 a1 a2 a3 r1 r2 f1 f2 f3 w1 w2 w3; gpay_fields)
-       · (clear hinc h1 h2 h2b h3 h4 h5 h6 h7 h8 h9 h10 h11 h12 h13 k1 k2 k3 k4 a1 a2 a3 r1 r2 f1 f2 f3 p1 p2 p3 p4; ggr_fields)
-       · (clear p1 p2 p3 p4 w1 w2 w3; ginc_fields hinc)))
+      (obtain ⟨⟨h1, h2, h2c, h2b, h3, h4, h5, h6, h7, h8, h9, h10, h11, h12, h13⟩,
+               ⟨k1, k2, k3, k4, k5, k6⟩, ⟨r1, r2⟩, ⟨a1, a2, a3⟩, ⟨f1, f2, f3⟩, ⟨p1, p2, p3, p4⟩, ⟨w1, w2, w3⟩, ⟨u1, u2⟩, hinc⟩ := $hx
+       refine ⟨?_, ?_, ?_, ?_, ?_, ?_, ?_, ?_, ?_⟩
+       · (clear hinc p1 p2 p3 p4 w1 w2 w3 u1 u2; g1_fields)
+       · (clear hinc p1 p2 p3 p4 w1 w2 w3 u1 u2; gsf_fields)
+       · (clear hinc p1 p2 p3 p4 w1 w2 w3 u1 u2; gres_fields)
+       · (clear hinc p1 p2 p3 p4 w1 w2 w3 u1 u2; gack_fields)
+       · (clear hinc p1 p2 p3 p4 w1 w2 w3 u1 u2; gfo_fields)
+       · (clear hinc h1 h2 h2c h2b h3 h4 h5 h6 h7 h8 h9 h10 h11 h12 h13 k1 k2 k3 k4 a1 a2 a3 r1 r2 f1 f2 f3 w1 w2 w3 u1 u2; gpay_fields)
+       · (clear hinc h1 h2 h2c h2b h3 h4 h5 h6 h7 h8 h9 h10 h11 h12 h13 k1 k2 k3 k4 a1 a2 a3 r1 r2 f1 f2 f3 p1 p2 p3 p4 u1 u2; ggr_fields)
+       · (clear hinc h3 h4 h5 h6 h7 h8 h9 h10 h11 h12 h13 k1 k2 k3 k4 a1 a2 a3 r1 r2 f1 f2 f3 p1 p2 p3 p4 w1 w2 w3; ghalt_fields)
+       · (clear p1 p2 p3 p4 w1 w2 w3 u1 u2; ginc_fields hinc)))
 
 /-- `Pres cfg h` for a handler that calls no other handler: unfold and check every path. -/
 syntax "pres_leaf" "[" ident* "]" : tactic
@@ -110,17 +117,18 @@ macro_rules
        have hx := Good.refl hs
        unfold $ds*
        (try unfold emit)
-       obtain ⟨⟨⟨h1, h2, h2b, h3, h4, h5, h6, h7, h8, h9, h10, h11, h12, h13⟩,
-                ⟨k1, k2, k3, k4, k5, k6⟩, ⟨r1, r2⟩, ⟨a1, a2, a3⟩, ⟨f1, f2, f3⟩, ⟨p1, p2, p3, p4⟩, ⟨w1, w2, w3⟩, hinc⟩, hfr⟩ := hx
-       refine ⟨⟨?_, ?_, ?_, ?_, ?_, ?_, ?_, ?_⟩, ?_⟩
-       · (clear hinc p1 p2 p3 p4 w1 w2 w3; g1_fields)
-       · (clear hinc p1 p2 p3 p4 w1 w2 w3; gsf_fields)
-       · (clear hinc p1 p2 p3 p4 w1 w2 w3; gres_fields)
-       · (clear hinc p1 p2 p3 p4 w1 w2 w3; gack_fields)
-       · (clear hinc p1 p2 p3 p4 w1 w2 w3; gfo_fields)
-       · (clear hinc h1 h2 h2b h3 h4 h5 h6 h7 h8 h9 h10 h11 h12 h13 k1 k2 k3 k4 a1 a2 a3 r1 r2 f1 f2 f3 w1 w2 w3; gpay_fields)
-       · (clear hinc h1 h2 h2b h3 h4 h5 h6 h7 h8 h9 h10 h11 h12 h13 k1 k2 k3 k4 a1 a2 a3 r1 r2 f1 f2 f3 p1 p2 p3 p4; ggr_fields)
-       · (clear p1 p2 p3 p4 w1 w2 w3; ginc_fields hinc)
+       obtain ⟨⟨⟨h1, h2, h2c, h2b, h3, h4, h5, h6, h7, h8, h9, h10, h11, h12, h13⟩,
+                ⟨k1, k2, k3, k4, k5, k6⟩, ⟨r1, r2⟩, ⟨a1, a2, a3⟩, ⟨f1, f2, f3⟩, ⟨p1, p2, p3, p4⟩, ⟨w1, w2, w3⟩, ⟨u1, u2⟩, hinc⟩, hfr⟩ := hx
+       refine ⟨⟨?_, ?_, ?_, ?_, ?_, ?_, ?_, ?_, ?_⟩, ?_⟩
+       · (clear hinc p1 p2 p3 p4 w1 w2 w3 u1 u2; g1_fields)
+       · (clear hinc p1 p2 p3 p4 w1 w2 w3 u1 u2; gsf_fields)
+       · (clear hinc p1 p2 p3 p4 w1 w2 w3 u1 u2; gres_fields)
+       · (clear hinc p1 p2 p3 p4 w1 w2 w3 u1 u2; gack_fields)
+       · (clear hinc p1 p2 p3 p4 w1 w2 w3 u1 u2; gfo_fields)
+       · (clear hinc h1 h2 h2c h2b h3 h4 h5 h6 h7 h8 h9 h10 h11 h12 h13 k1 k2 k3 k4 a1 a2 a3 r1 r2 f1 f2 f3 w1 w2 w3 u1 u2; gpay_fields)
+       · (clear hinc h1 h2 h2c h2b h3 h4 h5 h6 h7 h8 h9 h10 h11 h12 h13 k1 k2 k3 k4 a1 a2 a3 r1 r2 f1 f2 f3 p1 p2 p3 p4 u1 u2; ggr_fields)
+       · (clear hinc h3 h4 h5 h6 h7 h8 h9 h10 h11 h12 h13 k1 k2 k3 k4 a1 a2 a3 r1 r2 f1 f2 f3 p1 p2 p3 p4 w1 w2 w3; ghalt_fields)
+       · (clear p1 p2 p3 p4 w1 w2 w3 u1 u2; ginc_fields hinc)
        · grind))
 
 /-- the outstanding fetch/offset request is never the commit request -/
@@ -168,7 +176,7 @@ theorem stopRetry_pres (cfg : Cfg) : Pres cfg stopRetry := by pres_leaf [stopRet
 theorem stopTimers_pres (cfg : Cfg) : Pres cfg stopTimers := by pres_leaf [stopTimers]
 /-- `stop()`'s last statements, once the refetch timer is gone -/
 theorem stopFinish_good {cfg : Cfg} {s0 s : St} (h : Good cfg s0 s) (hq : retryPending s.retryCall = false)
-    (hrq : activeReq s.requestD = none) (hpk : s.parked = none) :
+    (hrq : activeReq s.requestD = none) (hpk : s.parked = none) (hp : s.proc = none) :
     Good cfg s0 (stopFinish s) := by
   unfold stopFinish crash
   simp only []
